@@ -622,7 +622,12 @@ impl<'a, F: EvalComptimeFn> InferenceCtx<'a, F> {
             };
         }
 
+        // see the cyclic branch below
+        let mut functions_first = true;
+
         loop {
+            let mut restricted_to_functions = false;
+
             let leaves = match self.to_infer.peek_all() {
                 Ok(leaves) => leaves.into_iter().cloned().collect_vec(),
                 Err(_) => {
@@ -673,6 +678,23 @@ impl<'a, F: EvalComptimeFn> InferenceCtx<'a, F> {
                         }
                     });
 
+                    // Everything that is still pending is in this list, not only the members of
+                    // the cycle. A cycle through function bodies (recursion) is legal, and value
+                    // globals that merely reach it (`K :: comptime { r(3) }`, `N :: K`) must wait
+                    // for it instead of being declared circular, or whether they are accepted
+                    // would depend on the order they were written in. So as long as that makes
+                    // progress, only the functions and lambdas are tried in a cyclic round.
+                    if functions_first {
+                        let is_function = |loc: &ConcreteLoc| match loc {
+                            ConcreteLoc::Global(global) => is_function_global(global),
+                            ConcreteLoc::Lambda(_) => true,
+                        };
+                        if cyclic.iter().any(is_function) && !cyclic.iter().all(is_function) {
+                            cyclic.retain(is_function);
+                            restricted_to_functions = true;
+                        }
+                    }
+
                     let nyr = Ty::NotYetResolved.into();
 
                     let mut res = format!("!!!! CYCLIC !!!!");
@@ -699,6 +721,8 @@ impl<'a, F: EvalComptimeFn> InferenceCtx<'a, F> {
 
             // println!("inferring leaves: {leaves:#?}");
 
+            let mut any_finished = false;
+
             for inferrable in leaves {
                 debug!(
                     "--- ATTEMPING TO TYPE {} ---",
@@ -708,6 +732,7 @@ impl<'a, F: EvalComptimeFn> InferenceCtx<'a, F> {
                 // println!(" + {}", inferrable.debug(self.interner));
                 match self.infer(inferrable) {
                     Ok(_) => {
+                        any_finished = true;
                         debug!(
                             "--- FINISHED TYPING {} ---",
                             inferrable.debug(self.interner)
@@ -737,6 +762,12 @@ impl<'a, F: EvalComptimeFn> InferenceCtx<'a, F> {
             //     );
             // }
             // println!();
+
+            if restricted_to_functions && !any_finished {
+                // the functions themselves wait for the value globals (a real cycle):
+                // everything is tried from now on, which reports it
+                functions_first = false;
+            }
 
             if self.to_infer.is_empty() {
                 #[cfg(capy_verif)]
